@@ -9,7 +9,7 @@ from .model import AnalysisError
 from .values import (NONE, Num, Str, SStr, Cat, Obj, TupleV, Star, Choice, Opaque, vkey, deps_of)
 from .absint import Raised, BOOL, SIGNS
 
-PURE_EVENTS = ('call', 'yield', 'range', 'divide', 'convert', 'partial', 'loop-iter', 'loop-truncated', 'seq-append', 'seq-extend', 'loop-summary')
+PURE_EVENTS = ('modular-call', 'modular-ret', 'call', 'yield', 'range', 'divide', 'convert', 'partial', 'loop-iter', 'loop-truncated', 'seq-append', 'seq-extend', 'loop-summary')
 
 
 def summarise(I, cls, name):
@@ -86,6 +86,7 @@ def modular_call(I, st, cls, name, recv, args, kw, frame, node):
     nth = sum(1 for e in st.trace if e[0] == 'modular' and e[1] == site)
     remaining = list(range(len(outs)))
     cur = st
+    cur.ev('modular-call', site, nth, name, tuple(zip(params, args)))
     for idx in remaining:
         last = idx == remaining[-1]
         if last:
@@ -114,6 +115,7 @@ def modular_call(I, st, cls, name, recv, args, kw, frame, node):
                 sym = I.symbol('%s#%d.ret[%d][%d]' % (site, nth, idx, j), SIGNS, kind='summary', fn=name,
                                deps=frozenset(deps))
                 elems.append(sym)
+        s2.ev('modular-ret', site, nth, name, tuple(elems))
         if shape[0] == 'tuple':
             results.append((s2, TupleV(elems)))
         else:
